@@ -5,7 +5,7 @@
     repaired reading; everything that does not mention [q_oldest] holds for both. *)
 From stdpp Require Import gmap strings list.
 From PintV Require Import Model.UC Model.Eval Model.Registry Model.Context
-  Proofs.RegistryProofs Proofs.ContextProofs.
+  Proofs.RegistryProofs Proofs.RootProofs Proofs.FactorProofs Proofs.ContextProofs Proofs.ContextRedefProofs.
 Close Scope string_scope.
 Local Open Scope nat_scope.
 
@@ -158,9 +158,11 @@ Proof. exact (unreachable_raises apply_eq pick r0 r c x src dst sd dd). Qed.
     container whose expansion never reads a spelling of [u] in the unit table (the string itself,
     the unit of its first candidate, the composed name prefix+unit) keeps root units and factor —
     first relative to any set [K] of affected spellings, then for [redefine] itself, with
-    decidable hypotheses checked on a concrete registry below.  MISSING: the closed form of the
-    change for the units that do reach [u] (shown on the concrete registry only: yard 36 -> 30),
-    and the same frame for [dim_of] (hence for [conv_factor]); [redefinition_scoped] is C12's. *)
+    decidable hypotheses checked on a concrete registry below.  CLOSED FORM: see [C11_redefinition_transitive] / [_closed_form] / [_value] below.  Still missing:
+    the product formula value'(a) = value(a) * (value'(n) / value(n))^deg as ONE rational identity
+    (needs [mprod] compared under two scale functions and [pw (s*t) z = pw s z * pw t z]); the value
+    is given as [mprod (gscale r') F'] with [gscale r'] characterised; the same for [dim_of]
+    (a redefinition cannot change dimensionality, [redefine] refuses it); [redefinition_scoped] is C12's. *)
 Theorem C11_redefinition_transitive_partial (K : string → Prop) (r r' : reg) (a : uc) :
   (∀ s, ¬ K s → resolve r' s = resolve r s) →
   reach_free K (reg_fuel r) r (map_to_list a) → root_of r' a = root_of r a.
@@ -178,6 +180,70 @@ Example C11_redefinition_hypotheses :
   reach_freeb (reg_fuel rd_reg) rd_reg rd_nd (map_to_list (u1 "hour")) = true ∧
   reach_freeb (reg_fuel rd_reg) rd_reg rd_nd (map_to_list (u1 "yard")) = false.
 Proof. exact redefinition_hypotheses. Qed.
+(** FULL STATEMENT of the transitivity clause (the [_partial] theorem above is kept: evidence refers to it).
+    Two registries that differ by the definition of ONE unit [n] ([differ_at]: every string resolves
+    alike, except that the strings denoting [n] resolve to [dn1] / [dn2]).  For EVERY container [a]:
+    the root units of [a] in the second registry are those in the first, times
+    (root units of [n] in the second / in the first) to the power [degc r1 n a] — the exponent with
+    which the expansion of [a] reaches [n] (sum over all reference chains; 0 when it never does).
+    [(F, B)] = (symbolic factor: generators with exponents, base units), as [root_sym] computes them. *)
+Theorem C11_redefinition_transitive (r1 r2 : reg) (n : string) (dn1 dn2 : udef)
+    (k1 k2 : string) (f1 f2 : nat) (Fn1 Bn1 Fn2 Bn2 : uc) (a F1 B1 F2 B2 : uc) :
+  differ_at r1 r2 n dn1 dn2 →
+  resolve r1 k1 = Ok dn1 → resolve r2 k2 = Ok dn2 →
+  root_row f1 r1 k1 = Some (Fn1, Bn1) → root_row f2 r2 k2 = Some (Fn2, Bn2) →
+  rsem r1 a = Some (F1, B1) → rsem r2 a = Some (F2, B2) →
+  F2 = uc_mul F1 (uc_pow (uc_div Fn2 Fn1) (degc r1 n a)) ∧
+  B2 = uc_mul B1 (uc_pow (uc_div Bn2 Bn1) (degc r1 n a)).
+Proof.
+  intros HA H1 H2 H3 H4.
+  exact (rsem_subst r1 r2 n dn1 dn2 HA k1 k2 f1 f2 Fn1 Bn1 Fn2 Bn2 H1 H2 H3 H4 a F1 B1 F2 B2).
+Qed.
+(** ... and [redefine] produces such a pair, for every registry in which every spelling of the unit
+    denotes it and no other table entry bears its name (both decidable: [own_strictb], [uniqb]) *)
+Theorem C11_redefinition_closed_form (r r' : reg) (d : redef) :
+  redefine r d = Ok r' →
+  ∃ base nd, r' = r_over r nd ∧ u_name nd = u_name base ∧
+    (own_strictb r nd base = true → uniqb r nd = true →
+     ∀ Fn Bn Fn' Bn', rrow r (u_name nd) = Some (Fn, Bn) → rrow r' (u_name nd) = Some (Fn', Bn') →
+     ∀ a F B F' B', rsem r a = Some (F, B) → rsem r' a = Some (F', B') →
+       F' = uc_mul F (uc_pow (uc_div Fn' Fn) (degc r (u_name nd) a)) ∧
+       B' = uc_mul B (uc_pow (uc_div Bn' Bn) (degc r (u_name nd) a))).
+Proof. exact (redefinition_closed_form r r' d). Qed.
+(** the value [root_of] returns afterwards: the product of the generator scales of that factor, the
+    scales being those of [r] except for the redefined unit ([gscale_over_other], [gscale_over_unit]) *)
+Theorem C11_redefinition_value (r r' : reg) (d : redef) :
+  redefine r d = Ok r' →
+  ∃ base nd, r' = r_over r nd ∧
+    (own_strictb r nd base = true → uniqb r nd = true →
+     ∀ Fn Bn Fn' Bn', rrow r (u_name nd) = Some (Fn, Bn) → rrow r' (u_name nd) = Some (Fn', Bn') →
+     ∀ a F B, rsem r a = Some (F, B) → is_Some (rsem r' a) →
+       let F' := uc_mul F (uc_pow (uc_div Fn' Fn) (degc r (u_name nd) a)) in
+       reg_nz r' → gens_ok r' F' → integral F' →
+       ∃ ex, root_of r' a = Ok (Some (mprod (gscale r') F'),
+                                uc_mul B (uc_pow (uc_div Bn' Bn) (degc r (u_name nd) a)), ex)).
+Proof. exact (redefinition_value r r' d). Qed.
+Theorem C11_redefinition_scales (r : reg) (nd : udef) g :
+  (∀ k, k ∈ spellings nd → ∃ b, r_units r !! k = Some b ∧ u_name b = u_name nd ∧ u_symbol b = u_symbol nd) →
+  (¬ touched r nd g → gscale (r_over r nd) g = gscale r g) ∧
+  gscale (r_over r nd) (u_name nd) = if u_float nd then 1%Qc else u_scale nd.
+Proof. intros own. split; [exact (gscale_over_other r nd g own) | exact (gscale_over_unit r nd)]. Qed.
+(** degree 0 (the expansion never reaches the unit): nothing moves *)
+Theorem C11_redefinition_degree_zero (r r' : reg) (d : redef) :
+  redefine r d = Ok r' →
+  ∃ base nd, r' = r_over r nd ∧
+    (own_strictb r nd base = true → uniqb r nd = true →
+     ∀ Fn Bn Fn' Bn', rrow r (u_name nd) = Some (Fn, Bn) → rrow r' (u_name nd) = Some (Fn', Bn') →
+     ∀ a F B F' B', rsem r a = Some (F, B) → rsem r' a = Some (F', B') →
+       degc r (u_name nd) a = 0%Qc → F' = F ∧ B' = B).
+Proof. exact (redefinition_degree_zero r r' d). Qed.
+Example C11_closed_form_example :
+  rd_reg' = r_over rd_reg rd_nd ∧ own_strictb rd_reg rd_nd rd_base = true ∧ uniqb rd_reg rd_nd = true ∧
+  degc rd_reg "foot"%string (u1 "yard") = 1%Qc ∧ degc rd_reg "foot"%string (u1 "hour") = 0%Qc ∧
+  degc rd_reg "foot"%string (mkuc [("yard"%string, mkq 2 1); ("hour"%string, mkq (-1) 1)]) = mkq 2 1 ∧
+  rrow rd_reg "foot"%string = Some ({[ "foot"%string := 1%Qc ]}, {[ "inch"%string := 1%Qc ]}) ∧
+  rsem rd_reg' (u1 "yard") = Some (mkuc [("yard"%string, mkq 1 1); ("foot"%string, mkq 1 1)], mkuc [("inch"%string, mkq 1 1)]).
+Proof. exact closed_form_example. Qed.
 (** colliding redefinitions: the newest context's redefinitions are applied last, and a redefinition
     is in force under every spelling of the unit whatever was written before (by whatever spelling) *)
 Theorem C11_newest_redefinitions_applied_last {E} r (pc : pctx E) (c : list (pctx E)) :
